@@ -37,6 +37,34 @@ func buildDoc(m map[string]any, nativeInts bool) (map[string]any, *shadow) {
 	return v.(map[string]any), sh
 }
 
+// buildDocKeys is buildDoc with native ints below selected top-level keys only.
+func buildDocKeys(m map[string]any, nativeInts bool, keys []string) (map[string]any, *shadow) {
+	if len(keys) == 0 {
+		return buildDoc(m, nativeInts)
+	}
+	out := make(map[string]any, len(m))
+	sh := &shadow{kind: 1}
+	names := make([]string, 0, len(m))
+	for k := range m {
+		names = append(names, k)
+	}
+	sort.Strings(names)
+	sh.keys = names
+	for _, k := range names {
+		native := nativeInts
+		for _, nk := range keys {
+			if nk == k {
+				native = true
+			}
+		}
+		c, csh := buildValue(m[k], native)
+		out[k] = c
+		sh.kids = append(sh.kids, csh)
+	}
+	sh.ptr = reflect.ValueOf(out).Pointer()
+	return out, sh
+}
+
 func buildValue(v any, nativeInts bool) (any, *shadow) {
 	switch x := v.(type) {
 	case map[string]any:
